@@ -185,6 +185,13 @@ theorem C19_cumulative_last_total_nd (h : Hist) (kmax : Key) (hdom : ∀ kv ∈ 
   have : h.filter (fun kv2 => tupleCompare kv2.1 kmax) = h := List.filter_eq_self.mpr hdom
   rw [this]; rfl
 
+/-- the weighted n-D cumulative histogram (bins of any additive type, e.g. the fractions left by `normalize`) stores at every
+    key the sum of the weights of the bins it dominates; on counts it coincides with `cumulative` -/
+theorem C19_cumulative_weighted_nd (dims : Nat) (h : Hist) (hd : dims ≠ 1) : cumulativeW dims h = cumulative dims h := by
+  unfold cumulativeW cumulative
+  simp only [hd, if_false]
+  rfl
+
 /-! ### sub-histograms, normalisation, std containers -/
 
 /-- marginalisation keeps the total mass -/
